@@ -56,12 +56,19 @@ func main() {
 		r.Count("steps", 1)
 		r.Count("backlog_probes", 6)
 		for _, f := range l1.CheckC19(s, st, true) {
-			r.Violation(f.Sig, f.What, map[string]any{"session_seed": s.Seed, "script_tail": tail(s.Steps, 40),
+			r.Violation(f.Sig+s.SigSuffix, f.What, map[string]any{"session_seed": s.Seed, "script_tail": tail(s.Steps, 40),
 				"step": st.Index, "kind": st.Kind, "pre_block_tip": len(st.Pre) - 1, "post_block_tip": len(st.Post) - 1,
 				"pre_filter_tip": len(st.PreF) - 1, "post_filter_tip": len(st.PostF) - 1, "events": len(st.Events)})
 		}
 	}
-	l1.RunMany(r.Seed, r.Pick(60, 1200), l1.Callbacks{
+	// Development aid: L1_IOFAULT_ONLY=1 runs only family iofault; never set by
+	// registered commands.
+	devIO := os.Getenv("L1_IOFAULT_ONLY") != ""
+	nHdr := r.Pick(60, 1200)
+	if devIO {
+		nHdr = 0
+	}
+	l1.RunMany(r.Seed, nHdr, l1.Callbacks{
 		OnStep:     func(s *l1.Session, st *l1.StepObs) { obs(s, st, "hdr") },
 		OnStoreErr: func(s *l1.Session, st *l1.StepObs, err error) { r.Inconclusive("store-unreadable (reported by C01)") },
 		OnEnd: func(s *l1.Session, err error) {
@@ -125,8 +132,32 @@ func main() {
 			}
 		},
 	}
-	l1.RunManyFilter(r.Seed, r.Pick(30, 400), r.Pick(12, 200), r.Pick(10, 120), filterCbs)
-	l1.RunCatchUpFilter(r.Seed, r.Pick(2, 40), r.Pick(7, 160), filterCbs)
+	if !devIO {
+		l1.RunManyFilter(r.Seed, r.Pick(30, 400), r.Pick(12, 200), r.Pick(10, 120), filterCbs)
+		l1.RunCatchUpFilter(r.Seed, r.Pick(2, 40), r.Pick(7, 160), filterCbs)
+	}
+	r.Rule("family iofault (ONE transient I/O error underneath the real stores: a flat-file Write / short write / Truncate / Sync / ReadAt / Stat / Seek or a database Update / View failing once, at a chosen call position, while one headers message is handled or one filter-header round runs) in sessions with block AND filter headers synced: growth, reorganisations with the filter tip above the fork point, an off-chain peer running into a hard-coded checkpoint (rollback to the previous one); afterwards the same branch is offered again, filter-header rounds run, and the chain grows and reorganises again. A panic of the client in the step of the fault is the death of the process: stores reopened through the constructors, fresh block manager, peers reconnect; the reference restarts from what the reopened stores hold. If the client carries on, the same oracle applies to that step and to every later one. The first plans are seed-independent (truncate of either file in a reorganisation rollback / in the checkpoint rollback; a read failing right after a filter-header batch was committed; a short header write; the failed write of the first header of a new branch)")
+	ioCbs := filterCbs
+	ioCbs.OnStep = func(fs *l1.FilterSession, st *l1.StepObs) { obs(fs.Session, st, "iof") }
+	ioCbs.OnEnd = func(fs *l1.FilterSession, err error) {
+		filterCbs.OnEnd(fs, err)
+		if fs != nil {
+			counts, marks, inc := l1.IOFaultEvidence(fs)
+			for k, v := range counts {
+				r.Count(k, v)
+			}
+			for _, m := range marks {
+				r.Mark(m)
+			}
+			if inc != "" {
+				r.Inconclusive(inc)
+			}
+		}
+	}
+	l1.RunIOFaultFilter(r.Seed, r.Pick(30, 500), ioCbs)
+	if devIO {
+		r.Finish(1)
+	}
 	// L2 part: real block subscriptions on the complete client (subscription
 	// manager on top of the block manager) while the honest chain grows and
 	// reorganises; each subscriber replays backlog + events and must hold the
